@@ -4,7 +4,9 @@ package main
 
 import (
 	"bytes"
+	"context"
 	"fmt"
+	"time"
 	"os"
 	"os/exec"
 	"path/filepath"
@@ -305,7 +307,9 @@ func runNative(work, dir string, p *GProg) (map[string][]string, error) {
 	os.MkdirAll(d, 0o755)
 	os.WriteFile(filepath.Join(d, "go.mod"), []byte("module runmod\n\ngo 1.22\n"), 0o644)
 	os.WriteFile(filepath.Join(d, "main.go"), []byte(src), 0o644)
-	cmd := exec.Command("go", "run", ".")
+	ctx, cancel := context.WithTimeout(context.Background(), 60*time.Second)
+	defer cancel()
+	cmd := exec.CommandContext(ctx, "go", "run", ".")
 	cmd.Dir = d
 	cmd.Env = append(os.Environ(), "GOFLAGS=-mod=mod", "GOPROXY=off", "GOTOOLCHAIN=local")
 	var out, errb bytes.Buffer
@@ -363,8 +367,10 @@ func suiteCollide(c *Ctx) error {
 		outQ, err2 := runNative(c.Work, fmt.Sprintf("x%d_q", i), pr.q)
 		if err1 != nil || err2 != nil {
 			mu.Lock()
-			if firstErr == nil {
-				firstErr = fmt.Errorf("native execution failed: %v %v", err1, err2)
+			// an edit can make a loop diverge (e.g. a step change on a != test): nothing to compare
+			c.Skip("native_execution_failed_or_timed_out")
+			if err1 != nil && firstErr == nil && !strings.Contains(err1.Error(), "killed") {
+				firstErr = fmt.Errorf("native execution of the ORIGINAL program failed: %v", err1)
 			}
 			mu.Unlock()
 			return
@@ -435,5 +441,133 @@ func suiteCollide(c *Ctx) error {
 			c.Sample(map[string]interface{}{"edits": pr.edits})
 		}
 	})
-	return firstErr
+	if firstErr != nil {
+		return firstErr
+	}
+	return collideSpecials(c, r)
+}
+
+func writeModuleFiles(base, name, mod string, files map[string]string) (string, error) {
+	d := filepath.Join(base, name)
+	if err := os.MkdirAll(d, 0o755); err != nil {
+		return "", err
+	}
+	if err := os.WriteFile(filepath.Join(d, "go.mod"), []byte("module "+mod+"\n\ngo 1.22\n"), 0o644); err != nil {
+		return "", err
+	}
+	for rel, content := range files {
+		f := filepath.Join(d, rel)
+		os.MkdirAll(filepath.Dir(f), 0o755)
+		if err := os.WriteFile(f, []byte(content), 0o644); err != nil {
+			return "", err
+		}
+	}
+	return d, nil
+}
+
+func runSpecialNative(work, dir string, sp special, src string) ([]string, error) {
+	files := map[string]string{}
+	for k, v := range sp.Files {
+		files[k] = v
+	}
+	m := strings.Replace(src, "package genpkg", "package main", 1)
+	if strings.Contains(m, "import (") {
+		m = strings.Replace(m, "import (", "import (\n\t\"fmt\"", 1)
+	} else {
+		m = strings.Replace(m, "package main\n", "package main\n\nimport \"fmt\"\n", 1)
+	}
+	var sb strings.Builder
+	sb.WriteString("\nfunc main() {\n")
+	for _, in := range execInputs {
+		fmt.Fprintf(&sb, "\tfmt.Println(Special(%s, %s, %s, %s))\n", in[0], in[1], in[2], in[3])
+	}
+	sb.WriteString("}\n")
+	files["main.go"] = m + sb.String()
+	d, err := writeModuleFiles(work, dir, "genmod", files)
+	if err != nil {
+		return nil, err
+	}
+	ctx, cancel := context.WithTimeout(context.Background(), 120*time.Second)
+	defer cancel()
+	cmd := exec.CommandContext(ctx, "go", "run", ".")
+	cmd.Dir = d
+	cmd.Env = append(os.Environ(), "GOFLAGS=-mod=mod", "GOPROXY=off", "GOTOOLCHAIN=local")
+	var out, errb bytes.Buffer
+	cmd.Stdout, cmd.Stderr = &out, &errb
+	if err := cmd.Run(); err != nil {
+		return nil, fmt.Errorf("go run: %v: %s", err, errb.String())
+	}
+	return strings.Split(strings.TrimSpace(out.String()), "\n"), nil
+}
+
+// the hand-shaped families of specials.go through the same oracles
+func collideSpecials(c *Ctx, r *Rng) error {
+	for si, sp := range genSpecials(r.Fork()) {
+		if sp.Family == "oversized" && c.Tier != "thorough" && os.Getenv("VERIF_OVERSIZED") == "" && si%1 == 0 {
+			// the oversized pair costs ~20 s of compile time: quick tier runs it too, but only once
+		}
+		outP, err1 := runSpecialNative(c.Work, fmt.Sprintf("sp%d_pn", si), sp, sp.P)
+		outQ, err2 := runSpecialNative(c.Work, fmt.Sprintf("sp%d_qn", si), sp, sp.Q)
+		if err1 != nil || err2 != nil {
+			return fmt.Errorf("special %s does not run: %v %v", sp.Name, err1, err2)
+		}
+		c.Res.Evaluations++
+		if strings.Join(outP, ";") == strings.Join(outQ, ";") {
+			c.Count("special_without_observable_effect_" + sp.Name)
+			continue
+		}
+		c.Res.Nontrivial++
+		c.Count("special_" + sp.Name)
+		mk := func(tag, src string) (string, error) {
+			files := map[string]string{"a.go": src}
+			for k, v := range sp.Files {
+				files[k] = v
+			}
+			d, err := writeModuleFiles(c.Work, fmt.Sprintf("sp%d_%s", si, tag), "genmod", files)
+			return filepath.Join(d, "a.go"), err
+		}
+		fP, _ := mk("p", sp.P)
+		fQ, _ := mk("q", sp.Q)
+		rp := map[string]interface{}{"special": sp.Name, "source_P": trunc(sp.P, 4000), "source_Q": trunc(sp.Q, 4000), "extra_files": sp.Files, "outputs_P": outP, "outputs_Q": outQ, "inputs(a,b,s,xs)": execInputs}
+		for _, pol := range []struct {
+			n string
+			p ir.LiteralPolicy
+		}{{"keepall", ir.KeepAllLiteralsPolicy}, {"default", ir.DefaultLiteralPolicy}} {
+			rP, e1 := diff.FingerprintSource(fP, sp.P, pol.p)
+			rQ, e2 := diff.FingerprintSource(fQ, sp.Q, pol.p)
+			if e1 != nil || e2 != nil {
+				return fmt.Errorf("special %s does not load: %v %v", sp.Name, e1, e2)
+			}
+			var a, b string
+			for _, x := range rP {
+				if strings.HasSuffix(x.FunctionName, ".Special") {
+					a = x.Fingerprint
+				}
+			}
+			for _, x := range rQ {
+				if strings.HasSuffix(x.FunctionName, ".Special") {
+					b = x.Fingerprint
+				}
+			}
+			if a != "" && a == b {
+				c.Violate("C03", "C03/collision-"+pol.n+":"+sp.Family, fmt.Sprintf("%s: P and Q produce different outputs but share the fingerprint %s", sp.Name, trunc(a, 16)), rp)
+			}
+		}
+		dout, derr := cli.ComputeDiff(cli.RealFileSystem{}, fP, fQ)
+		if derr != nil {
+			c.Skip("special_diff_error")
+			continue
+		}
+		for _, fd := range dout.Functions {
+			if fd.Function == "Special" && fd.Status == "preserved" {
+				how := "structural-match"
+				if fd.FingerprintMatch {
+					how = "fingerprint-match"
+				}
+				rp["diff_entry"] = fd
+				c.Violate("C04", "C04/behaviour-change-reported-preserved:"+sp.Family+":"+how, fmt.Sprintf("%s: outputs differ but diff reports the function preserved (%s)", sp.Name, how), rp)
+			}
+		}
+	}
+	return nil
 }
